@@ -134,3 +134,34 @@ def threshold_hits_chars(a, b, line_overlap, char_margin):
     if nested and (ha != hb):
         hits.append("nested-extents")
     return hits
+
+
+# ---------------------------------------------------------------- hierarchical grouping of boxes (documented part)
+def box_distance(a, b):
+    """documented closeness of two boxes: area of the bounding rectangle of both minus the two areas (may be negative)"""
+    x0, y0, x1, y1 = min(a[0], b[0]), min(a[1], b[1]), max(a[2], b[2]), max(a[3], b[3])
+    return (x1 - x0) * (y1 - y0) - (a[2] - a[0]) * (a[3] - a[1]) - (b[2] - b[0]) * (b[3] - b[1])
+
+
+def first_merge_of_three(bb):
+    """bb = three bounding boxes.  -> (pair (i, j) the documentation determines to be merged first, or None, why).
+    'Repeatedly merges the two text boxes that are closest to each other.'  The implementation postpones a pair
+    when another box lies inside the pair's bounding rectangle (undocumented); the expectation is therefore only
+    given when the closest pair is not affected by that rule or when all three pairs are affected alike."""
+    pairs = [(0, 1), (0, 2), (1, 2)]
+    d = {pq: box_distance(bb[pq[0]], bb[pq[1]]) for pq in pairs}
+    best = min(d.values())
+    closest = [pq for pq in pairs if d[pq] == best]
+    if len(closest) != 1:
+        return None, "tie between equally close pairs"
+
+    def between(pq):
+        k = 3 - pq[0] - pq[1]
+        a, b, c = bb[pq[0]], bb[pq[1]], bb[k]
+        x0, y0, x1, y1 = min(a[0], b[0]), min(a[1], b[1]), max(a[2], b[2]), max(a[3], b[3])
+        return not (c[2] <= x0 or x1 <= c[0] or c[3] <= y0 or y1 <= c[1])
+
+    btw = {pq: between(pq) for pq in pairs}
+    if (not btw[closest[0]]) or all(btw.values()):
+        return closest[0], ""
+    return None, "closest pair has a third box inside its bounding rectangle while another pair has not"
